@@ -102,7 +102,18 @@ def _one(R, rng, i):
     ignore = slope is not None and rng.random() < 0.4
     mmap = rng.random() < 0.35
     in_minmax = None
-    if layout != "rgb" and rng.random() < 0.2:
+    # the combinations of header scaling x --ignore-scaling x --input-min/max occur in every run
+    # (volumes 0..5), not only when the random draws happen to produce them
+    forced = {0: (True, True, True), 1: (True, False, True), 2: (True, True, False), 3: (False, False, True),
+              4: (True, True, True), 5: (True, False, False)}.get(i) if layout != "rgb" else None
+    if forced:
+        if forced[0] and slope is None:
+            slope, inter = rng.choice([(2.0, 0.0), (0.5, 1.0), (-1.0, 10.0), (1.0, -3.0)])
+            pipeline.write_nifti(nii, data, affine=np.diag(list(vox) + [1.0]), slope=slope, inter=inter)
+        ignore = forced[1] and slope is not None
+        if forced[2]:
+            in_minmax = rng.choice([(0.0, 255.0), (-100.0, 100.0), (10.0, 20.0), (None, 1000.0)])
+    if layout != "rgb" and in_minmax is None and rng.random() < 0.2:
         in_minmax = rng.choice([(0.0, 255.0), (None, 1000.0), (-100.0, 100.0), (10.0, 20.0), (-100.0, 0.0),
                                 (-2.0, 0.0)])
     target = rng.choice([None, None] + NG)
